@@ -874,6 +874,13 @@ func (c *FnCtx) mapUpdate(fr *Frame, st *State, x *ssa.MapUpdate) {
 	v := c.toTerm(st, fr.val(x.Value), mtt.Elem())
 	c.addObl(st, "nilmap", fmt.Sprintf("#%d %s", c.kindOrd["nilmap"], x.Map.Name()), ts.Not(ts.Eq(m, ts.Int(0))), x.Pos(), "assignment to entry in nil map")
 	c.assumeChecked(st, ts.Not(ts.Eq(m, ts.Int(0))))
+	if fr.fc != nil && fr.fc.MapStores != nil && !fr.ghost && c.noObl == 0 && typeKey(mt.Underlying()) == "map[string]interface{}" {
+		// contract clause "map-stores": the condition every store into a Map made by this function must satisfy,
+		// evaluated just before the store
+		args := append(c.currentParams(fr, st), m, k, v)
+		r := c.evalGhost(st, c.eng.ld.GhostFunc(fr.fc.MapStores.Fn), args)
+		c.addObl(st, "store-cond", fmt.Sprintf("#%d %s", c.kindOrd["store-cond"], x.Map.Name()), r, x.Pos(), fr.fc.MapStores.Raw)
+	}
 	c.mapSet(st, mt, m, k, v)
 }
 
